@@ -28,15 +28,6 @@ import (
 func NewNumericRangeSearcher(ctx context.Context, indexReader index.IndexReader,
 	min *float64, max *float64, inclusiveMin, inclusiveMax *bool, field string,
 	boost float64, options search.SearcherOptions) (search.Searcher, error) {
-	// account for unbounded edges
-	if min == nil {
-		negInf := math.Inf(-1)
-		min = &negInf
-	}
-	if max == nil {
-		Inf := math.Inf(1)
-		max = &Inf
-	}
 	if inclusiveMin == nil {
 		defaultInclusiveMin := true
 		inclusiveMin = &defaultInclusiveMin
@@ -45,14 +36,21 @@ func NewNumericRangeSearcher(ctx context.Context, indexReader index.IndexReader,
 		defaultInclusiveMax := false
 		inclusiveMax = &defaultInclusiveMax
 	}
-	// find all the ranges
-	minInt64 := numeric.Float64ToInt64(*min)
-	if !*inclusiveMin && minInt64 != math.MaxInt64 {
-		minInt64++
+	// find all the ranges, an unbounded edge reaches to the
+	// smallest/largest value that can be encoded
+	minInt64 := int64(math.MinInt64)
+	if min != nil {
+		minInt64 = numeric.Float64ToInt64(*min)
+		if !*inclusiveMin && minInt64 != math.MaxInt64 {
+			minInt64++
+		}
 	}
-	maxInt64 := numeric.Float64ToInt64(*max)
-	if !*inclusiveMax && maxInt64 != math.MinInt64 {
-		maxInt64--
+	maxInt64 := int64(math.MaxInt64)
+	if max != nil {
+		maxInt64 = numeric.Float64ToInt64(*max)
+		if !*inclusiveMax && maxInt64 != math.MinInt64 {
+			maxInt64--
+		}
 	}
 
 	var fieldDict index.FieldDictContains
